@@ -123,8 +123,8 @@ def run(pid, tier, seed):
     chk.rule = RULE
     chk.assumptions = ["set/dict iteration order, PYTHONHASHSEED and memory layout are varied by running `stub` in fresh interpreter processes with different hash seeds "
                        "and stores filled in different orders; in the Lean theorems they are an arbitrary permutation / duplication of a list"]
-    chk.partial = ("order-independence of the whole shrink_types result (ShrinkPerm) is stated and evaluated (here across processes, in C04 on the model and the "
-                   "implementation per multiset), not proved; proved: union members, required/optional keys, batch commutation (C09), stale-row skipping (C10)")
+    chk.partial = ("proved up to and including the merge (shrink_set: same members in -> == types out); that the rewriters and the renderer map == types to "
+                   "the same text up to member order is observed across processes here, not proved")
     proof = framework.lean_check(pid)
     quick = tier == "quick"
     from monkeytype.db.sqlite import SQLiteStore
